@@ -23,13 +23,14 @@ class Node:
 
 
 class Blob:
-    __slots__ = ('id', 'length', 'overlays', 'bit', 'gen')
+    __slots__ = ('id', 'length', 'overlays', 'bit', 'gen', 'baked')
 
     def __init__(self, bid, length, overlays=(), gen=0):
         self.id = bid
         self.length = length
         self.overlays = [tuple(o) for o in overlays]
         self.bit = False              # boot info table requested for it
+        self.baked = False            # mastered at least once with the table: bytes 8..63 on disc are the table
         self.gen = gen
 
 
@@ -324,6 +325,11 @@ class Model:
 
     def op_restart(self, op):
         self.generation += 1
+        for b in self.blobs.values():
+            if b.bit:
+                # mastering overwrote bytes 8..63 of the stored file; the image
+                # format keeps no copy of the supplied bytes
+                b.baked = True
 
     # -- expected views -------------------------------------------------------
     def content_key(self, node):
@@ -425,6 +431,21 @@ def _valid_rr(m, op, iso_key='iso', rr_key='rr'):
     return not op.get(rr_key)
 
 
+def hide_ok(m, node):
+    """Removing the *last* name of an El Torito boot file hides it; the image
+    then records only the emulated sector count for it, so a hidden boot file
+    keeps its length across a restart only when that count was derived from
+    the file (no explicit boot_load_size).  Explicit sizes are C11's business."""
+    if not isinstance(node.blob, int) or not m.eltorito:
+        return True
+    ents = [e for e in m.eltorito['entries'] if e['blob'] == node.blob]
+    if not ents:
+        return True
+    if len(m.names_of_blob(node.blob)) > 1:
+        return True
+    return all(e.get('load_size') is None for e in ents)
+
+
 def valid(m, op):
     """True iff ``op`` satisfies the documented preconditions in state ``m``
     (used when a shrunk or replayed op list is re-run: ops that became
@@ -478,7 +499,7 @@ def valid(m, op):
         if n is None or n.blob == 'cat':
             return False
         if n.kind == 'file':
-            return not (op['ns'] == 'udf' and n.noinode)
+            return not (op['ns'] == 'udf' and n.noinode) and hide_ok(m, n)
         return n.kind == 'symlink' and op['ns'] == 'udf'
     if k == 'add_symlink':
         if op.get('rr'):
